@@ -120,8 +120,8 @@ impl XmlConverter {
                         if !uri.is_empty() && !prefix.is_empty() {
                             ns = Some((prefix, uri));
                         }
-                    } else if let Val::Str(s) = val.as_ref() {
-                        ns = Some(("", s));
+                    } else if let Val::Str(_) = val.as_ref() {
+                        ns = Some(("", Self::get_str_val(val.as_ref())?));
                     } else if !val.is_empty() {
                         return Err(BuildError::new(
                             "XML ns field must be a string, a tuple or NULL",
